@@ -111,7 +111,7 @@ def main():
     dest = os.path.join(VERIF, "seeded", name)
     os.makedirs(dest, exist_ok=True)
     for f in os.listdir(seed):
-        if f.endswith((".diff", ".go", ".sh", ".md")):
+        if f.endswith((".diff", ".go", ".sh", ".md")) and os.path.abspath(seed) != os.path.abspath(dest):
             shutil.copy(os.path.join(seed, f), os.path.join(dest, f))
     meta["what_ran"] = ["scratch worktree: git apply; go build ./...; go test -mod=mod -vet=off -count=1 ./...; demo.sh with and without patch",
                         "git -C /repo apply patch.diff; python3 tools/check.py %s --tier quick; git -C /repo checkout -- ." % prop]
